@@ -341,6 +341,8 @@ class Tag(object):
             args = "password={0!r}, read_protect={1!r}, protect_from={2!r}"
             args = args.format(password, read_protect, protect_from)
             log.debug("protect({0})".format(args))
+            if isinstance(password, str):
+                password = password.encode("latin-1")
             status = self._protect(password, read_protect, protect_from)
             if status is True:
                 self._ndef = None
@@ -364,6 +366,8 @@ class Tag(object):
         if hasattr(self, "_authenticate"):
             args = "password={0!r}".format(password)
             log.debug("authenticate({0})".format(args))
+            if isinstance(password, str):
+                password = password.encode("latin-1")
             self._authenticated = self._authenticate(password)
             if self._authenticated is True:
                 self._ndef = None
